@@ -56,6 +56,7 @@ class Machine(object):
     self.cov = collections.Counter()
     self.oracles = list(oracles)
     self.handouts = []
+    self.buffers = {}
     self.inconclusive = []
     self.violation = None
     self.clock = world.SimClock(plan.get("run_seed", 0),
@@ -268,6 +269,25 @@ class Machine(object):
     if via == "indices" and (h.pre is None or h.pre_data != op["data"]):
       via = "formed"
     args = list(fit_args(h.name, D, via, op.get("y_kind", "full")))
+    if op.get("variant"):
+      args = apply_variant_args(args, op["variant"], via)
+    if op.get("buffer") and not op.get("malformed"):
+      # the caller re-uses the same array objects (data / indicators and
+      # labels) for successive fits - other content, same objects: what an
+      # estimator learns must depend on the content only
+      reused = 0
+      for i_, a_ in enumerate(args):
+        key = "%s#%d#%s" % (op["buffer"], i_, via)
+        a0 = np.asarray(a_)
+        buf = self.buffers.get(key)
+        if buf is not None and buf.shape == a0.shape and buf.dtype == a0.dtype:
+          np.copyto(buf, a0)
+          args[i_] = buf
+          reused += 1
+        else:
+          args[i_] = a0
+          self.buffers[key] = a0
+      self.cov["caller_buffer_reused"] += int(reused > 0)
     mal = op.get("malformed")
     if mal == "nan":
       a0 = np.array(args[0], dtype=float)
@@ -777,6 +797,33 @@ class Machine(object):
     ev["at"] = op["at"]
     ev["exc"] = op["exc"]
     self.cov["faults_armed"] += 1
+
+
+def apply_variant_args(args, spec, via):
+  """Another legal presentation of the same training set: rows listed in
+  another order (all arguments permuted alike) and, for formed data, other
+  units / slightly moved points."""
+  args = list(args)
+  if spec.get("perm") is not None and len(args):
+    n0 = len(args[0])
+    o = np_stream(spec["perm"], "variant-perm").permutation(n0)
+    args = [np.asarray(a)[o] if hasattr(a, "__len__") and len(a) == n0 else a for a in args]
+  if via == "formed" and (spec.get("scale", 1.0) != 1.0 or spec.get("noise")):
+    args[0] = apply_variant(args[0], spec)
+  return args
+
+
+def apply_variant(A, spec):
+  """The same points in other units and slightly moved: A * scale + noise
+  (still well-formed training data; deterministic in the spec)."""
+  A = np.array(A, dtype=float, copy=True)
+  rs = np_stream(spec.get("seed", 0), "variant")
+  sc = float(spec.get("scale", 1.0))
+  A *= sc
+  nz = float(spec.get("noise", 0.0))
+  if nz:
+    A += rs.randn(*A.shape) * nz * (np.abs(A).std() + 1e-300)
+  return A
 
 
 def _dyadic_probe(arg, D, t, spec):
